@@ -21,10 +21,20 @@ the decision function it is, branch by branch:
 `err.Error()` is reduced to the list of atoms that occur in it (the harness extracts the
 markers from the string); `encoding/json` to "a message value serialises to the document
 named by its atom" (messages that cannot be serialised are outside the property's
-quantifier).  `Recover` turns a panic value into an error (`error` values as they are, anything
-else through `fmt.Errorf("%v", r)`), re-panics on `http.ErrAbortHandler`, and either calls
+quantifier).  The middleware chain around the failing handler is a list of layers.  A `Recover` layer
+whose Skipper does not skip turns a panic value into an error (`error` values as they are,
+anything else through `fmt.Errorf("%v", r)`), re-panics on `http.ErrAbortHandler`, lets
+`LogErrorFunc` (if set) REPLACE the error (or swallow it by returning nil), and either calls
 `c.Error(err)` and lets the chain continue with `nil`, or (DisableErrorHandler) returns the
-error to the chain.  `ServeHTTP` hands a non-nil chain error to the handler once.
+error to the chain.  A `callsError` layer is the common middleware that reports the error it
+gets from `next(c)` through `c.Error` (and returns it as well, or nil).  `ServeHTTP` hands a
+non-nil chain error to the handler once.
+
+Well-known error VALUES (context.Canceled, io.EOF, echo.ErrValidatorNotRegistered, …) are plain
+errors with reserved atoms; echo's exported `*HTTPError` variables (echo.ErrNotFound, …) are
+`http c .dflt` values whose `Internal` is whatever `SetInternal` last stored in them — the
+harness resolves that aliasing and hands the tree the value has when it is handled.  The
+handler itself has no memory: it is a function of (Debug, method, response state, error).
 -/
 namespace C07
 
@@ -152,12 +162,36 @@ inductive Raise where
   | panicked (v : PanicVal)
 deriving DecidableEq, Repr, Inhabited
 
+/-- `RecoverConfig.LogErrorFunc`: its return value REPLACES the recovered error -/
+inductive LogFn where
+  | unset                  -- nil: Recover logs the stack itself (LogLevel switch) and keeps the error
+  | same                   -- returns the error it was given
+  | replace (e : Err)      -- returns another error
+  | swallow                -- returns nil: "the centralized HTTPErrorHandler will not be called"
+deriving DecidableEq, Repr, Inhabited
+
+/-- one `Recover` instance, as far as the response is concerned (StackSize, DisableStackAll,
+    DisablePrintStack and LogLevel only influence what is logged) -/
+structure RecCfg where
+  skip : Bool              -- `config.Skipper(c)` says true for this request
+  disableEH : Bool         -- `DisableErrorHandler`
+  logFn : LogFn
+deriving DecidableEq, Repr, Inhabited
+
+/-- a middleware in the chain -/
+inductive Layer where
+  | recover (cfg : RecCfg)
+  /-- `err := next(c); if err != nil { c.Error(err) }; return err` (`ret`) or `return nil` -/
+  | callsError (ret : Bool)
+deriving DecidableEq, Repr, Inhabited
+
 structure Case where
   debug : Bool
   head : Bool              -- request method is HEAD
-  recover : Bool           -- middleware.Recover installed
-  disableEH : Bool         -- RecoverConfig.DisableErrorHandler
-  double : Bool            -- an outer middleware calls c.Error(err) AND returns err
+  /-- the middleware chain around the failing handler, OUTERMOST FIRST (Pre, Use, group and
+      route level middleware are one chain; the router's own 404/405 handlers sit inside the
+      Pre and Use part of it) -/
+  layers : List Layer
   pre : Pre
   raise : Raise
 deriving DecidableEq, Repr, Inhabited
@@ -167,7 +201,7 @@ inductive Outcome where
   | crashed                -- the panic left ServeHTTP (net/http aborts the connection)
 deriving DecidableEq, Repr, Inhabited
 
-/-- `Recover`: panic value → error -/
+/-- `Recover`: panic value → error (`none`: `http.ErrAbortHandler` is re-panicked) -/
 def recoverErr : PanicVal → Option Err
   | .error e => some e
   | .str t => some (.plain t)
@@ -175,29 +209,95 @@ def recoverErr : PanicVal → Option Err
   | .struct t => some (.plain t)
   | .abort => none
 
-/-- an error travels up the middleware chain to ServeHTTP -/
-def chainError (c : Case) (o : Out) (e : Err) : Out :=
-  let o := if c.double then handle c.debug c.head o e else o   -- outer middleware: c.Error(err); return err
-  handle c.debug c.head o e                                     -- ServeHTTP: e.HTTPErrorHandler(err, c)
+/-- the error `Recover` goes on with after logging -/
+def logged : LogFn → Err → Option Err
+  | .unset, e => some e
+  | .same, e => some e
+  | .replace e', _ => some e'
+  | .swallow, _ => none
 
-def serve (c : Case) : Outcome :=
-  let o := applyPre c.pre
-  match c.raise with
-  | .returned e => .response (chainError c o e)
-  | .panicked v =>
-    if !c.recover then .crashed
+/-- what is travelling up the chain -/
+inductive Travel where
+  | panicking (v : PanicVal)
+  | returning (e : Option Err)     -- the `error` result of `next(c)`
+deriving DecidableEq, Repr, Inhabited
+
+/-- one middleware sees what comes out of `next(c)` -/
+def layerStep (debug head : Bool) : Layer → Out × Travel → Out × Travel
+  | .recover cfg, (o, .panicking v) =>
+    if cfg.skip then (o, .panicking v)                 -- `return next(c)`: no deferred recover
     else
       match recoverErr v with
-      | none => .crashed
+      | none => (o, .panicking v)                      -- `panic(r)` again
       | some e =>
-        if c.disableEH then .response (chainError c o e)     -- returnErr = err
-        else .response (handle c.debug c.head o e)           -- c.Error(err); chain sees nil
+        match logged cfg.logFn e with
+        | none => (o, .returning none)                 -- err == nil: `returnErr = nil`
+        | some e' =>
+          if cfg.disableEH then (o, .returning (some e'))          -- `returnErr = err`
+          else (handle debug head o e', .returning none)           -- `c.Error(err)`
+  | .recover _, x => x
+  | .callsError ret, (o, .returning (some e)) =>
+    (handle debug head o e, .returning (if ret then some e else none))
+  | .callsError _, x => x
+
+/-- up the chain, innermost middleware first -/
+def climb (debug head : Bool) : List Layer → Out × Travel → Out × Travel
+  | [], x => x
+  | l :: ls, x => climb debug head ls (layerStep debug head l x)
+
+/-- `ServeHTTP`: `if err := h(c); err != nil { e.HTTPErrorHandler(err, c) }` -/
+def finish (debug head : Bool) : Out × Travel → Outcome
+  | (_, .panicking _) => .crashed
+  | (o, .returning (some e)) => .response (handle debug head o e)
+  | (o, .returning none) => .response o
+
+def start : Raise → Travel
+  | .returned e => .returning (some e)
+  | .panicked v => .panicking v
+
+def serve (c : Case) : Outcome :=
+  finish c.debug c.head (climb c.debug c.head c.layers.reverse (applyPre c.pre, start c.raise))
+
+/-! ### how often the chain hands an error to `Echo.HTTPErrorHandler` -/
+
+/-- the travel component of `layerStep`, and whether the layer invoked the error handler
+    (`c.Error`) -/
+def layerTravel : Layer → Travel → Travel × Nat
+  | .recover cfg, .panicking v =>
+    if cfg.skip then (.panicking v, 0)
+    else
+      match recoverErr v with
+      | none => (.panicking v, 0)
+      | some e =>
+        match logged cfg.logFn e with
+        | none => (.returning none, 0)
+        | some e' => if cfg.disableEH then (.returning (some e'), 0) else (.returning none, 1)
+  | .recover _, t => (t, 0)
+  | .callsError ret, .returning (some e) => (.returning (if ret then some e else none), 1)
+  | .callsError _, t => (t, 0)
+
+def climbCount : List Layer → Travel → Travel × Nat
+  | [], t => (t, 0)
+  | l :: ls, t =>
+    let r := layerTravel l t
+    let r' := climbCount ls r.1
+    (r'.1, r.2 + r'.2)
+
+/-- number of invocations of `Echo.HTTPErrorHandler` for this request: one per `c.Error` in
+    the chain plus the one of `ServeHTTP` if the chain returns an error -/
+def countAtEnd : Travel × Nat → Nat
+  | (.returning (some _), n) => n + 1       -- ServeHTTP: e.HTTPErrorHandler(err, c)
+  | (_, n) => n
+
+def handOvers (c : Case) : Nat := countAtEnd (climbCount c.layers.reverse (start c.raise))
 
 /-- several requests through one Echo instance, one after the other.  Nothing of a request
     survives into the next one: `context.Reset` clears the response, and neither the error
-    handler nor `Recover` keeps state — so every request is served as if it were the only one.
-    (That this is what the real code does — pooled contexts included — is what the
-    correspondence run checks on sequences of failing requests.) -/
+    handler nor `Recover` keeps state — in particular the handler builds its generic 500 afresh
+    and never consults or changes a package-level error value — so every request is served as
+    if it were the only one.  (That this is what the real code does — pooled contexts and the
+    exported sentinel errors included — is what the correspondence run checks on sequences of
+    failing requests.) -/
 def serveAll (cs : List Case) : List Outcome := cs.map serve
 
 /-! ## wire -/
@@ -254,15 +354,36 @@ def pRaise : P Raise := do
     | _ => failure
   | _ => failure
 
-def pCase : P Case := do
+def pLogFn : P LogFn := do
+  let k ← nat
+  match k with
+  | 0 => pure .unset
+  | 1 => pure .same
+  | 2 => do let e ← pErr 64; pure (.replace e)
+  | 3 => pure .swallow
+  | _ => failure
+
+def pLayer : P Layer := do
+  let k ← nat
+  match k with
+  | 0 => do
+    let skip ← bool
+    let disableEH ← bool
+    let f ← pLogFn
+    pure (.recover ⟨skip, disableEH, f⟩)
+  | 1 => do let ret ← bool; pure (.callsError ret)
+  | _ => failure
+
+/-- a case and whether `Echo.HTTPErrorHandler` is the counting wrapper around the default
+    handler (observation only: then the number of hand-overs is printed) -/
+def pCase : P (Case × Bool) := do
   let debug ← bool
   let head ← bool
-  let recover ← bool
-  let disableEH ← bool
-  let double ← bool
+  let layers ← list pLayer
   let pre ← pPre
   let raise ← pRaise
-  pure ⟨debug, head, recover, disableEH, double, pre, raise⟩
+  let customEH ← bool
+  pure (⟨debug, head, layers, pre, raise⟩, customEH)
 
 def encText : Text → List String
   | .atom t => ["0", toString t]
@@ -274,16 +395,18 @@ def encDoc : Doc → List String
   | .doc j => ["2", toString j]
   | .null => ["3"]
 
-def encOutcome : Outcome → List String
+def encOutcome (c : Case) (customEH : Bool) : Outcome → List String
   | .crashed => ["X"]
   | .response o =>
     [encBool o.committed] ++ encList (fun c => [toString c]) o.calls ++ encList encDoc o.docs
+      ++ [toString (if customEH then handOvers c else 0)]
 
-/-- line: `nreq (debug head recover disableEH double pre raise)*` →
-    `nreq (X | committed ncalls call* ndocs doc*)*` -/
+/-- line: `nreq (debug head nlayers layer* pre raise customEH)*` with
+    `layer = 0 skip disableEH logfn | 1 ret`, `logfn = 0 | 1 | 2 err | 3` →
+    `nreq (X | committed ncalls call* ndocs doc* handOvers)*` -/
 def runLine (line : String) : String :=
   match parseLine (list pCase) line with
   | none => "bad-op"
-  | some cs => render (encList encOutcome (serveAll cs))
+  | some cs => render (encList (fun (c, k) => encOutcome c k (serve c)) cs)
 
 end C07
